@@ -583,7 +583,12 @@ struct Tree
         !secret(C + "/outside/index.html", 4) || !secret(C + "/outside/nested/deep.txt") ||
         !secret(C + "/outside/site.css.gz") || !secret(C + "/root/secret.txt"))
       return false;
-    outsideDirs = {C + "/outside", C + "/outside/nested", C, C + "/root", "/"};
+    // outside mirror of the mutable area of the mutate_tree property (same relative names)
+    if (!mkd(C + "/outside/docs") || !mkd(C + "/outside/docs/sub") || !secret(C + "/outside/docs/readme.txt") ||
+        !secret(C + "/outside/docs/new.txt") || !secret(C + "/outside/docs/readme.txt.gz") || !secret(C + "/outside/docs/sub/page.html") ||
+        !secret(C + "/outside/docs/page.html"))
+      return false;
+    outsideDirs = {C + "/outside", C + "/outside/nested", C, C + "/root", "/", C + "/outside/docs"};
     for (int r = 0; r < 3; ++r)
     {
       // sibling-prefix neighbours of the canonical region root
@@ -1142,9 +1147,40 @@ inline LookupResult doLookup(const iora::web::Assets &a, bool isTemplate, std::s
 /// (R_STATIC via getStatic on fromDirectory, R_TEMPL via getTemplate, R_EXT via
 /// getStatic on fromEmbedded with EXTERNAL_DIR). Returns false when a failure was
 /// recorded.
-inline bool judge(const Tree &t, int r, std::string_view name, const LookupResult &res, const NameFacts &f, Sink &s)
+/// What a caching lookup path may legitimately still hold for a name: the bytes (and .gz
+/// bytes) of every INSIDE regular file this name resolved to at an earlier lookup since the
+/// last reload(). Serving such a stale inside copy is not an escape.
+struct Stale
 {
-  const std::string api = std::string("C20/") + apiName(r) + "/";
+  std::set<std::string> bytes, gz;
+};
+
+/// contents of a regular file: the model if it knows the path, the disk otherwise
+inline std::optional<std::string> contentOf(const Tree &t, const std::string &canon)
+{
+  auto it = t.content.find(canon);
+  if (it != t.content.end()) return it->second;
+  return slurp(canon);
+}
+
+/// record what the name denotes right now (call before every lookup through a caching path)
+inline void noteCurrent(const Tree &t, int r, std::string_view name, const NameFacts &f, Stale &st)
+{
+  if (!f.walkOk || !f.insideFile) return;
+  if (auto c = contentOf(t, f.w.canon)) st.bytes.insert(*c);
+  for (const std::string &cand : {f.w.canon + ".gz", t.given[r] + "/" + std::string(name) + ".gz"})
+  {
+    Walk g;
+    if (!resolveChecked(cand, g)) continue;
+    if (g.ok && g.isReg && containedIn(t.canon[r], g.canon))
+      if (auto c = contentOf(t, g.canon)) st.gz.insert(*c);
+  }
+}
+
+inline bool judge(const Tree &t, int r, std::string_view name, const LookupResult &res, const NameFacts &f, Sink &s,
+                  const Stale *stale = nullptr, const char *sigPrefix = "C20/")
+{
+  const std::string api = std::string(sigPrefix) + apiName(r) + "/";
   auto ctx = [&](const std::string &obs)
   {
     std::string o = std::string(apiName(r)) + " lookup of '" + show(name) + "' [" + t.cfg.text() + "]: " + obs + "; OS resolution of <root>/name: ";
@@ -1182,6 +1218,14 @@ inline bool judge(const Tree &t, int r, std::string_view name, const LookupResul
     return false;
   }
   if (!f.walkOk) return true; // oracle unsure (counted by the caller)
+  const bool staleBytes = stale && stale->bytes.count(res.bytes) != 0;
+  const bool staleGz = stale && res.gzip && stale->gz.count(*res.gzip) != 0;
+  if (staleBytes && (!res.gzip || staleGz))
+  {
+    auto cur = f.insideFile ? contentOf(t, f.w.canon) : std::nullopt;
+    if (!cur || *cur != res.bytes) s.label("stale inside copy served from a cache (allowed)");
+    return true;
+  }
   // 3. the name must denote a regular file inside the canonical root ...
   if (!f.insideFile)
   {
@@ -1189,23 +1233,15 @@ inline bool judge(const Tree &t, int r, std::string_view name, const LookupResul
     return false;
   }
   // 4. ... and the bytes are that file's
-  auto it = t.content.find(f.w.canon);
-  std::optional<std::string> disk;
-  const std::string *want = nullptr;
-  if (it != t.content.end()) want = &it->second;
-  else
-  {
-    disk = slurp(f.w.canon);
-    if (disk) want = &*disk;
-  }
-  if (want && *want != res.bytes)
+  std::optional<std::string> want = contentOf(t, f.w.canon);
+  if (want && *want != res.bytes && !staleBytes)
   {
     s.fail(api + "bytes-of-another-file", ctx("Found, but the bytes ('" + show(res.bytes, 40) + "', " + std::to_string(res.bytes.size()) + " B) are not those of the resolved file ('" + show(*want, 40) + "', " + std::to_string(want->size()) + " B)"));
     return false;
   }
   // 5. gzip representation: documented as the sibling "<resolved file>.gz"; whatever is
   //    served must be a regular file whose resolved location is inside the root
-  if (res.gzip)
+  if (res.gzip && !staleGz)
   {
     bool okGz = false;
     std::string tried;
@@ -1216,8 +1252,8 @@ inline bool judge(const Tree &t, int r, std::string_view name, const LookupResul
       tried += " " + t.shortPath(cand) + (g.ok ? "=>" + t.shortPath(g.canon) : std::string("=>(") + std::strerror(g.err) + ")");
       if (g.ok && g.isReg && containedIn(t.canon[r], g.canon))
       {
-        auto ig = t.content.find(g.canon);
-        if (ig != t.content.end() && ig->second == *res.gzip) okGz = true;
+        auto gc = contentOf(t, g.canon);
+        if (gc && *gc == *res.gzip) okGz = true;
       }
     }
     if (!okGz)
